@@ -104,6 +104,13 @@ CHECKS = {
                      "and every interleaving with std Mutex / writer-preferring RwLock semantics; TLC's deadlock check and <>AllDone decide.  "
                      "A gate-aware lock-order certificate (no compatible cycle of held->wanted edges) extends the result to any K when it holds.",
                 note="K = 2 quick, K = 3 thorough; the stress run (8 / 16 threads) is watched for 10 s without progress"),
+    "C18": dict(ref="5 C18", tech="TLC model checking of Pages.tla + TLA+ trace validation (PagesTrace) of growth histories recorded through the page-ownership hook",
+                text="Pages.tla models the bitmap allocator, structures that write only pages they allocated, and the node table addressed as "
+                     "start + n / RPP (with the repaired relocation and, as a sensitivity run, without it).  nvx pages grows real databases to "
+                     "thousands of nodes interleaved with compactions, index creation, vectors and reopen; every pager call is logged with the "
+                     "calling module; PagesTrace keeps the owner map and rejects a write / free by a non-owner, and compares what every read "
+                     "interface returns with the content computed from the step parameters.",
+                note="the defect the model predicted (node 512 written into the page after the table) was confirmed and repaired (fix e4d74e8)"),
     "C26": dict(ref="5 C26", tech="TLC model checking of BTree.tla + TLA+ trace validation (BTreeTrace) of the real B-tree",
                 text="BTree.tla transcribes insert/split/delete/cursor with page capacity 2; TLC checks scan/lookup/delete against the "
                      "sorted-multimap ghost exhaustively for unique keys, and reproduces the equal-keys defect whose counterexample is "
@@ -171,7 +178,7 @@ CHECKS = {
 }
 
 # properties whose check has been run green on the unchanged tree
-ENABLED = ["C01", "C02", "C03", "C04", "C05", "C06", "C07", "C08", "C09", "C10", "C11", "C12", "C13", "C14", "C15", "C17", "C19", "C20", "C21", "C22", "C23", "C24", "C26", "C27", "C28", "C29", "C30", "C32", "C33", "C34", "C35"]
+ENABLED = ["C01", "C02", "C03", "C04", "C05", "C06", "C07", "C08", "C09", "C10", "C11", "C12", "C13", "C14", "C15", "C17", "C18", "C19", "C20", "C21", "C22", "C23", "C24", "C26", "C27", "C28", "C29", "C30", "C32", "C33", "C34", "C35"]
 
 NOT_APPLICABLE = {
     "C16": "quantifies over arbitrary byte strings and resource exhaustion; no state machine to specify, a fuzzer's job (DESIGN.md 6)",
@@ -187,6 +194,7 @@ def main():
     import checks
     import cychecks  # noqa: F401
     import conchecks  # noqa: F401
+    import pagechecks  # noqa: F401
     checks_out = []
     na = []
     for p in props:
